@@ -322,6 +322,72 @@ def o4_rosomaxa_elite(F, r):
                 r.fail(f"{util.short_fn(m)}:elite=", "elite population replaced after construction", F.loc(m, s["ln"]))
 
 
+def _const_ge1(op):
+    if not mir.is_const(op):
+        return False
+    txt = str(op["c"]).replace("_usize", "").replace("f64", "").replace("_i32", "").replace("_f64", "")
+    try:
+        return float(txt) >= 1.0
+    except ValueError:
+        return False
+
+
+def s1_selection_size_clamped(F, r):
+    """float -> usize casts in population code that produce a selection size must be clamped to >= 1"""
+    thru = mir.PASS_THROUGH_CALLS + ("std::f64::<impl f64>::round", "std::f64::<impl f64>::floor", "std::f64::<impl f64>::ceil", "std::f64::<impl f64>::trunc",
+                                     "core::f64::<impl f64>::round", "core::f64::<impl f64>::floor", "core::f64::<impl f64>::ceil")
+    for fid, fn in F.fns.items():
+        root = F.root_of(fid)
+        if not F.fns.get(root, {}).get("module", "").startswith("rosomaxa::population"):
+            continue
+        for bi, si, s in mir.stmts(fn):
+            rv = s["r"]
+            if rv["k"] != "cast" or rv["ty"] != "usize" or not mir.is_place(rv["o"][0]):
+                continue
+            if fn["locals"][rv["o"][0]["l"]] not in ("f64", "f32"):
+                continue
+            inst = f"{util.short_fn(root)}@cast"
+            flow0 = mir.forward(fn, [s["d"]["l"]])
+            is_sel = False
+            for cb, t in mir.calls(fn):
+                if t["callee"].endswith("Iterator::take") and len(t["args"]) > 1 and mir.is_place(t["args"][1]) and t["args"][1]["l"] in flow0:
+                    is_sel = True
+            for b2, s2i, s2 in mir.stmts(fn):
+                r2 = s2["r"]
+                if r2["k"] == "agg" and "selection_size" in r2.get("fs", []):
+                    o = r2["o"][r2["fs"].index("selection_size")]
+                    if mir.is_place(o) and o["l"] in flow0:
+                        is_sel = True
+                pf = mir.field_path(s2["d"])
+                if pf and pf[-1].endswith("selection_size") and any(mir.is_place(o) and o["l"] in flow0 for o in r2.get("o", [])):
+                    is_sel = True
+            if not is_sel:
+                r.skip()
+                continue
+            roots = mir.trace(fn, rv["o"][0], through_calls=thru)
+            clamped = False
+            for k, v, p in roots:
+                if k == "call":
+                    t = fn["bbs"][v]["t"]
+                    last = t["callee"].split("::")[-1]
+                    if last == "max" and any(_const_ge1(a) for a in t["args"]):
+                        clamped = True
+                    if last == "clamp" and len(t["args"]) >= 2 and _const_ge1(t["args"][1]):
+                        clamped = True
+            if not clamped:
+                # integer-side clamp of the cast result
+                flow = mir.forward(fn, [s["d"]["l"]])
+                for cb, t in mir.calls(fn):
+                    last = t["callee"].split("::")[-1]
+                    if last in ("max", "clamp") and t["args"] and mir.is_place(t["args"][0]) and t["args"][0]["l"] in flow and any(_const_ge1(a) for a in t["args"][1:2]):
+                        clamped = True
+            if clamped:
+                r.ok(inst, "scaled size clamped to >= 1 before use")
+            else:
+                r.fail(inst, "a selection/population size computed from a float ratio is cast to usize without a lower clamp of 1: it can round to 0 and "
+                             "select() returns nothing from a non-empty population", F.loc(fid, s["ln"]))
+
+
 def run(ctx):
     ctx.explanation = (
         "Finite-ordering evaluation (E-C) of the incumbent-replacement code over every abstract ordering of (best,new) and "
@@ -334,4 +400,5 @@ def run(ctx):
     ctx.run("C08-O1", "incumbents are replaced only by no-worse individuals; no-worse individuals pass the elite filter (E-C over all orderings)", o1_incumbent, floor=7)
     ctx.run("C08-O2", "every offered individual reaches the comparison in every HeuristicPopulation::add_all/add impl", o2_every_offer_compared, floor=5)
     ctx.run("C08-O3", "Elitism: additions are followed by sort(total_order(a,b)) before any truncation; max size > 0", o3_elitism_order, floor=3)
+    ctx.run("C08-S1", "sizes derived from float ratios in population code are clamped to at least one", s1_selection_size_clamped, floor=2)
     ctx.run("C08-O4", "Rosomaxa uses its elite only through add/ranked/select and never replaces it", o4_rosomaxa_elite, floor=4)
